@@ -1,5 +1,5 @@
 //! C03: serialisation output (compact / pretty / per-write buffers) of arbitrary serializer programs,
-//! and `Display` / `to_string` / `to_string_pretty` of `Value`.
+//! and `Display` / `to_string` / `to_string_pretty` of `Value` (also into a failing `fmt::Write`), `Display` of `Number`.
 use crate::common::*;
 use crate::prog::*;
 use serde::Serialize;
@@ -115,6 +115,44 @@ fn obs_disp(v: &Value) -> String {
     format!("{}|{}|{}|{}", a, b, c, d)
 }
 
+/// a `fmt::Write` that records every `write_str` fragment and accepts whole fragments while their total length
+/// stays within `budget` bytes (`None`: never fails)
+struct FragSink { frags: Vec<Vec<u8>>, used: usize, budget: Option<usize> }
+impl std::fmt::Write for FragSink {
+    fn write_str(&mut self, s: &str) -> std::fmt::Result {
+        if let Some(m) = self.budget { if self.used + s.len() > m { return Err(std::fmt::Error); } }
+        self.used += s.len();
+        self.frags.push(s.as_bytes().to_vec());
+        Ok(())
+    }
+}
+fn frag_list(frags: &[Vec<u8>]) -> String {
+    format!("{}|{}", frags.len(), if frags.is_empty() { "-".to_string() } else { frags.iter().map(|b| hexf(b)).collect::<Vec<_>>().join(",") })
+}
+fn budget_tok(b: Option<usize>) -> String { match b { None => "-".into(), Some(m) => m.to_string() } }
+
+/// `write!(sink, "{}" / "{:#}", v)` into the budget sink: result, accepted fragments, and the `to_string(_pretty)` text
+fn obs_dispf(v: &Value, alt: bool, budget: Option<usize>) -> String {
+    use std::fmt::Write;
+    guard(|| {
+        let mut sink = FragSink { frags: vec![], used: 0, budget };
+        let r = if alt { write!(sink, "{:#}", v) } else { write!(sink, "{}", v) };
+        let text = if alt { serde_json::to_string_pretty(v).unwrap() } else { serde_json::to_string(v).unwrap() };
+        format!("{}|{}|{}", if r.is_ok() { "OK" } else { "ERR" }, frag_list(&sink.frags), hexf(text.as_bytes()))
+    })
+}
+
+/// `write!(sink, "{}", n)` of a `Number`, and `to_string(&n)`
+fn obs_dispn(n: &Number) -> String {
+    use std::fmt::Write;
+    guard(|| {
+        let mut sink = FragSink { frags: vec![], used: 0, budget: None };
+        let r = write!(sink, "{}", n);
+        let text = serde_json::to_string(n).unwrap();
+        format!("{}|{}|{}", if r.is_ok() { "OK" } else { "ERR" }, frag_list(&sink.frags), hexf(text.as_bytes()))
+    })
+}
+
 // ------------------------------------------------------------------ tags / non-triviality
 
 fn needs_escape(s: &str) -> bool { s.bytes().any(|b| b < 0x20 || b == b'"' || b == b'\\') }
@@ -182,6 +220,25 @@ fn emit_disp(sink: &mut Sink, v: &Value, src: &str) {
     sink.case("disp", &[&enc(v), &float_table(v)], &o, &t, nt);
 }
 
+fn vkind(v: &Value) -> &'static str {
+    match v { Value::Null => "null", Value::Bool(_) => "bool", Value::Number(_) => "number", Value::String(_) => "string",
+              Value::Array(_) => "array", Value::Object(_) => "object" }
+}
+fn emit_dispf(sink: &mut Sink, v: &Value, alt: bool, budget: Option<usize>, _src: &str) {
+    let o = obs_dispf(v, alt, budget);
+    let res = if o.starts_with("OK|") { "ok" } else if o.starts_with("ERR|") { "fmterror" } else { "panic" };
+    let b = match budget { None => "unbounded", Some(0) => "zero", Some(_) => "bounded" };
+    let nt = matches!(v, Value::Array(_) | Value::Object(_));
+    sink.case("dispf", &[&enc(v), &float_table(v), if alt { "1" } else { "0" }, &budget_tok(budget)], &o,
+              &format!("dispf:{}:{}:{}:{}", vkind(v), if alt { "alt" } else { "plain" }, b, res), nt);
+}
+fn emit_dispn(sink: &mut Sink, n: &Number, src: &str) {
+    let o = obs_dispn(n);
+    let v = Value::Number(n.clone());
+    let k = if n.is_f64() { "float" } else if n.is_u64() { "posint" } else if n.is_i64() { "negint" } else { "big" };
+    sink.case("dispn", &[&enc(&v), &float_table(&v)], &o, &format!("dispn:{}:{}", src, k), false);
+}
+
 pub fn replay(sink: &mut Sink, toks: &[&str]) {
     if toks.len() < 2 { return; }
     match toks[0] {
@@ -198,6 +255,17 @@ pub fn replay(sink: &mut Sink, toks: &[&str]) {
             sink.case(toks[0], &[&fmt_tok(ind.as_deref()), &enc_prog(&p)], &o, "replay", true)
         }
         "disp" => { let v = dec_value(toks[1]); let o = obs_disp(&v); sink.case("disp", &[&enc(&v), &float_table(&v)], &o, "replay", true) }
+        "dispf" if toks.len() >= 5 => {
+            let v = dec_value(toks[1]); let alt = toks[3] == "1";
+            let budget: Option<usize> = if toks[4] == "-" { None } else { toks[4].parse().ok() };
+            let o = obs_dispf(&v, alt, budget);
+            sink.case("dispf", &[&enc(&v), &float_table(&v), if alt { "1" } else { "0" }, &budget_tok(budget)], &o, "replay", true)
+        }
+        "dispn" => {
+            let v = dec_value(toks[1]);
+            if let Value::Number(n) = &v { let o = obs_dispn(n); sink.case("dispn", &[&enc(&v), &float_table(&v)], &o, "replay", true) }
+            else { eprintln!("dispn: not a number {:?}", toks) }
+        }
         _ => eprintln!("cannot replay {:?}", toks),
     }
 }
@@ -402,5 +470,30 @@ pub fn run(sink: &mut Sink, thorough: bool, seed: u64) {
     for k in 0..m {
         if k % 3 == 0 { let v = gen_value(&mut r, 3); emit_disp(sink, &v, "common"); }
         else { let d = r.below(4); let v = gen_dvalue(&mut r, d); emit_disp(sink, &v, "local"); }
+    }
+    // (d) Display through a `fmt::Write` that fails after a byte budget (own generator state: the cases above keep their seeds)
+    let mut r = Rng::new(seed ^ 0xd15f_a017);
+    for v in disp_corpus() {
+        for alt in [false, true] {
+            let len = if alt { serde_json::to_string_pretty(&v).unwrap().len() } else { serde_json::to_string(&v).unwrap().len() };
+            emit_dispf(sink, &v, alt, None, "fixed");
+            // every budget up to the length for the small ones, a sample otherwise
+            if len <= 24 || thorough { for b in 0..=len + 1 { emit_dispf(sink, &v, alt, Some(b), "fixed"); } }
+            else { for b in [0, 1, 2, len / 2, len - 1, len, len + 1] { emit_dispf(sink, &v, alt, Some(b), "fixed"); } }
+        }
+        if let Value::Number(n) = &v { emit_dispn(sink, n, "fixed"); }
+    }
+    let m = if thorough { 20000 } else { 1500 };
+    for k in 0..m {
+        let v = if k % 3 == 0 { gen_value(&mut r, 3) } else { let d = r.below(4); gen_dvalue(&mut r, d) };
+        let alt = r.chance(1, 2);
+        let len = if alt { serde_json::to_string_pretty(&v).unwrap().len() } else { serde_json::to_string(&v).unwrap().len() };
+        emit_dispf(sink, &v, alt, None, "random");
+        let b = match r.below(4) { 0 => len, 1 => len.saturating_sub(1), _ => r.below(len + 2) };
+        emit_dispf(sink, &v, alt, Some(b), "random");
+    }
+    for k in 0..m / 5 {
+        let n = if k % 2 == 0 { gen_number(&mut r) } else { match Number::from_f64(gen_f64(&mut r)) { Some(n) => n, None => Number::from(k as u64) } };
+        emit_dispn(sink, &n, "random");
     }
 }
